@@ -134,3 +134,7 @@ m("C03-iterm2-konsole-flag-inverted", "C03", "image/iterm2.py", "               
 m("C11-iterm2-lines-stream-leak", "C11", "image/iterm2.py", "            with io.StringIO() as buffer, raw_image, compressed_image:", "            with io.StringIO() as buffer, raw_image:")
 m("C03-iterm2-size-before-seek-end", "C03", "image/iterm2.py", "        with compressed_image:\n            compressed_image.seek(0, 2)\n            control_data", "        with compressed_image:\n            compressed_image.seek(0)\n            control_data")
 m("C01-iterm2-whole-height-minus-1", "C01", "image/iterm2.py", "                    f\";height={r_height};preserveAspectRatio=0;inline=1\"\n                    f\"{';doNotMoveCursor=1' * is_on_konsole}:\"\n                )\n            )\n            compressed_image.seek(0)\n            return \"\".join(\n                (\n                    (\n                        \"\"\n                        if is_on_konsole\n                        else f\"{erase}{cursor_right}\\n\" * (r_height - 1)\n                    ),\n                    erase,\n                    \"\" if is_on_konsole else cursor_up,\n                    ITERM2_START,\n                    control_data,\n                    standard_b64encode(compressed_image.read()).decode(),\n                    ST,\n                    f\"{cursor_right}\\n\" * (r_height - 1) if is_on_konsole else \"\",\n                    cursor_right * is_on_konsole,\n                )\n            )\n\n\n_stdout", "                    f\";height={r_height - 1};preserveAspectRatio=0;inline=1\"\n                    f\"{';doNotMoveCursor=1' * is_on_konsole}:\"\n                )\n            )\n            compressed_image.seek(0)\n            return \"\".join(\n                (\n                    (\n                        \"\"\n                        if is_on_konsole\n                        else f\"{erase}{cursor_right}\\n\" * (r_height - 1)\n                    ),\n                    erase,\n                    \"\" if is_on_konsole else cursor_up,\n                    ITERM2_START,\n                    control_data,\n                    standard_b64encode(compressed_image.read()).decode(),\n                    ST,\n                    f\"{cursor_right}\\n\" * (r_height - 1) if is_on_konsole else \"\",\n                    cursor_right * is_on_konsole,\n                )\n            )\n\n\n_stdout")
+# ---- old API _format_render
+m("C05-revert-format-render-fix", "C05", "image/common.py", "top = f\"{' ' * max(width, cols)}\\n\" * top", "top = f\"{' ' * width}\\n\" * top")
+m("C05-format-render-center-right", "C05", "image/common.py", "                right = \" \" * (width - cols - len(left))", "                right = \" \" * ((width - cols) // 2)")
+m("C05-format-render-bottom-align", "C05", "image/common.py", "            elif v_align == \"_\":  # bottom\n                top = height - lines\n                bottom = 0", "            elif v_align == \"_\":  # bottom\n                top = height - lines - 1\n                bottom = 1")
